@@ -105,6 +105,24 @@ WriteParseId(dd) ==
 InvWriteParseId == WriteParseId(d)
 InvEmptyOut == (d.pc = "done" /\ Len(d.atoms) = 0) => d.out = ""
 
+(* C13: [nop] is invisible - the run on the input without its [nop]s ends in *)
+(* the same outcome and the same molecule with the same attribution          *)
+StripNop(sq) == SelectSeq(sq, LAMBDA t : t # "[nop]")
+NopInvisible ==
+  Terminal(d) => LET e == Run(InitStateC(StripNop(d.inp), TRUE, d.compat))
+                 IN Outcome(e) = Outcome(d) /\ e.atoms = d.atoms /\ e.bonds = d.bonds /\ e.otok = d.otok
+
+(* C18: with compatible=True the result is that of the modernised string    *)
+(* without the flag; hence identical on strings without legacy symbols       *)
+ModernSeq(sq) == [i \in 1..Len(sq) |-> Modernize(sq[i])]
+CompatIsModern ==
+  (Terminal(d) /\ d.compat) =>
+     LET e == Run(InitStateC(ModernSeq(d.inp), TRUE, FALSE))
+     IN Outcome(e) = Outcome(d) /\ e.fuzzy = d.fuzzy /\ e.bonds = d.bonds
+
+(* C07: over the robust alphabet the derivation never meets an invalid symbol *)
+NeverInvalid == d.pc # "error" /\ ~d.fuzzy
+
 (* C08 (design side): every behaviour reaches a terminal state *)
 Terminates == <>(Terminal(d))
 
